@@ -20,6 +20,7 @@ macro_rules! dispatch {
             "C08" => $f(&props::c08::C08, $($arg),*),
             "C09" => $f(&props::c09::C09, $($arg),*),
             "C10" => $f(&props::c10::C10, $($arg),*),
+            "C11" => $f(&props::c11::C11, $($arg),*),
             _ => { eprintln!("unknown property {}", $id); 2 }
         }
     };
